@@ -54,6 +54,7 @@ Lemma guard_sound_resolves : forall g f base id,
               /\ is_dir_at f base id = false.
 Proof.
   intros g f base id Hs He. destruct g; try discriminate; cbn [guard_eval] in He.
+  - unfold guard_plain in He. apply andb_true_iff in He. apply is_file_at_resolves. exact (proj2 He).
   - apply andb_true_iff in He. apply is_file_at_resolves. exact (proj2 He).
   - apply is_file_at_resolves. exact He.
 Qed.
@@ -69,7 +70,7 @@ Qed.
 Lemma guard_rejects_absent : forall g f base id, exists_at f base id = false -> guard_eval g f base id = false.
 Proof.
   intros g f base id H. unfold exists_at in H.
-  destruct g; cbn [guard_eval]; unfold is_file_at, exists_at; destruct (resolve f base id); try discriminate;
+  destruct g; cbn [guard_eval]; unfold guard_plain, is_file_at, exists_at; destruct (resolve f base id); try discriminate;
     try rewrite andb_false_r; reflexivity.
 Qed.
 
@@ -352,4 +353,40 @@ Qed.
 Lemma guard_plain_examples :
   guard_plain w_fs w_base [46; 46; 47; 120] = false /\ guard_plain w_fs w_base [107] = true
   /\ guard_plain w_fs w_base [] = false /\ guard_plain w_fs w_base [46] = false /\ guard_plain w_fs w_base [115] = false.
+Proof. vm_compute. repeat split; reflexivity. Qed.
+
+(* ---- since the repair of S30: a guard that confines (guard_confines) lets an id pass only if it is the entry of that
+   name in the blobs directory; the handoff over the file system records such an id only ---- *)
+Lemma guard_confines_store : forall g f base id,
+  guard_confines g = true -> guard_eval g f base id = true ->
+  exists q c, resolve f base [46] = WAt q Dir /\ resolve f base id = WAt (q ++ [id]) (File c)
+              /\ read_back f base id = Some c.
+Proof.
+  intros g f base id Hc He. destruct g; try discriminate. cbn [guard_eval] in He. exact (guard_plain_confined f base id He).
+Qed.
+
+Lemma handoff_fs_summary_in_store : forall g f base view l parent sel md a id fr l' arts' c cut om,
+  guard_confines g = true ->
+  handoff_fs g f base view l parent sel md a id fr = (l', arts', Ok (c, cut, om)) ->
+  l' = l ++ [created_frame c (f_e0 fr); handoff_frame c (f_e1 fr) parent cut om (Some a) md]
+  /\ exists q content, resolve f base [46] = WAt q Dir /\ resolve f base id = WAt (q ++ [id]) (File content)
+                        /\ read_back f base id = Some content.
+Proof.
+  intros g f base view l parent sel md a id fr l' arts' c cut om Hc H.
+  split; [exact (proj2 (proj2 (handoff_fs_ok_frames _ _ _ _ _ _ _ _ _ _ _ _ _ _ _ _ H)))|].
+  pose proof (handoff_fs_ok_guard _ _ _ _ _ _ _ _ _ _ _ _ _ _ H) as G.
+  exact (guard_confines_store g f base id Hc G).
+Qed.
+
+(* the repaired guard on the witnesses: the blob passes by its name only; every path-like spelling, the directory
+   shapes and the file outside the store are refused *)
+Lemma repaired_guard_examples :
+  guard_eval GPlainIsFile w_fs w_base [107] = true
+  /\ guard_eval GPlainIsFile w_fs w_base [46; 47; 107] = false
+  /\ guard_eval GPlainIsFile w_fs w_base [47; 98; 47; 107] = false
+  /\ guard_eval GPlainIsFile w_fs w_base [46; 46; 47; 120] = false
+  /\ guard_eval GPlainIsFile w_fs w_base [] = false /\ guard_eval GPlainIsFile w_fs w_base [46] = false
+  /\ guard_eval GPlainIsFile w_fs w_base [46; 46] = false /\ guard_eval GPlainIsFile w_fs w_base [115] = false
+  /\ guard_eval GPlainIsFile w_fs w_base [107; 47] = false
+  /\ w_handoff GPlainIsFile [46; 46; 47; 120] = (demo_log, [], Err ENoArtifact).
 Proof. vm_compute. repeat split; reflexivity. Qed.
